@@ -389,6 +389,8 @@ type caseInput struct {
 	env  map[string]bool
 	// outcome tree: built after parsing, from the parsed document
 	mkW func(p parsedDoc) *outcome
+	// the document is not expected to be valid: parse only
+	unvalidated bool
 }
 
 func runCase(in caseInput) sexp.Node {
@@ -406,7 +408,18 @@ func runCase(in caseInput) sexp.Node {
 		envL = append(envL, sexp.L(sexp.Str(v), sexp.Bool(in.env[v])))
 	}
 	flags := []sexp.Node{}
-	doc, errs := graphql.ParseAndValidate(in.text, schema, nil)
+	var doc *ast.Document
+	var errs []*graphql.Error
+	if in.unvalidated {
+		parsed, perrs := parser.ParseDocument([]byte(in.text))
+		if len(perrs) > 0 {
+			panic("harness: hostile document does not parse: " + in.text)
+		}
+		doc = parsed
+		flags = append(flags, sexp.Sym("unvalidated"))
+	} else {
+		doc, errs = graphql.ParseAndValidate(in.text, schema, nil)
+	}
 	if len(errs) > 0 {
 		// Defect 9 of DESIGN section 6 (property C04): a fragment reached twice while merging one
 		// selection set is refused with the secondary error "cycle detected" although the document
@@ -450,11 +463,19 @@ func runCase(in caseInput) sexp.Node {
 	return sexp.T("case", schemaSexp(in.s), pd.node, sexp.L(envL...), w.sexp(), obs, sexp.L(flags...))
 }
 
-func randomCase(r *rng.R) sexp.Node {
+func randomCase(r *rng.R) sexp.Node { return genCase(r, false) }
+
+// hostileCase: a document that validation would refuse (undefined fields, type conditions on
+// leaf or unknown types, unknown or cyclic fragments, sub-selections on leaves, variables that
+// are not defined) is parsed and handed to the executor directly: the executor's own behaviour on
+// such input (blank keys, panics) is part of the model, though not of the property.
+func hostileCase(r *rng.R) sexp.Node { return genCase(r, true) }
+
+func genCase(r *rng.R, hostile bool) sexp.Node {
 	s := genSchema(r)
-	d := genDocument(r, s)
+	d := genDocument(r, s, hostile)
 	pFail := rng.Pick(r, []int{0, 3, 8, 8, 15, 15, 25, 40})
-	return runCase(caseInput{s: s, text: d.text, vars: d.vars, env: d.env, mkW: func(p parsedDoc) *outcome {
+	return runCase(caseInput{s: s, text: d.text, vars: d.vars, env: d.env, unvalidated: hostile, mkW: func(p parsedDoc) *outcome {
 		g := &wGen{s: s, r: r, pFail: pFail, frags: p.frags}
 		root := s.query
 		if p.kind == "mutation" {
@@ -474,6 +495,9 @@ func main() {
 		}
 		for i := 0; i < n; i++ {
 			h.Case(randomCase)
+		}
+		for i := 0; i < n/4; i++ {
+			h.Case(hostileCase)
 		}
 	})
 }
